@@ -3,6 +3,7 @@ random._urandom are wrapped BEFORE psec is imported, so every draw from the OS
 generator made by psec is observed, however psec imports or calls it.
 Prints one JSON object."""
 import json
+import itertools
 import math
 import os
 import sys
@@ -96,6 +97,36 @@ def byte_stat_check(name, rows):
                 viol.append({"what": "%s: %s nibble value %X has frequency %.3f over %d bytes (expected 0.0625 +- %.3f)" % (name, part, val, f, n, eps)})
 
 
+def joint_cover_check(name, tuples, alphabet):
+    """every value of alphabet^width must occur among the observed tuples (all of one width).  Applied only when the
+    sample is large enough that a uniform source misses some value with probability < 2^-60 (union bound):
+    K (1 - 1/K)^n < 2^-60  <=  n >= K (60 ln 2 + ln K)."""
+    if not tuples:
+        return
+    width = len(tuples[0])
+    K = len(alphabet) ** width
+    n = len(tuples)
+    if n < K * (60 * math.log(2) + math.log(K)) + 1:
+        return
+    seen = set(tuples)
+    stats["joint_cover_tests"] = stats.get("joint_cover_tests", 0) + 1
+    if len(seen & set(itertools.product(alphabet, repeat=width))) < K:
+        missing = [t for t in itertools.product(alphabet, repeat=width) if t not in seen][:4]
+        viol.append({"what": "%s: %d of the %d admissible %d-symbol values never occurred in %d calls, e.g. %r"
+                             % (name, K - len(seen & set(itertools.product(alphabet, repeat=width))), K, width, n, missing)})
+
+
+def byte_cover_check(name, rows):
+    """pooled: every byte value 0..255 occurs (same 2^-60 rule)"""
+    data = b"".join(rows)
+    if len(data) < 256 * (60 * math.log(2) + math.log(256)) + 1:
+        return
+    stats["byte_cover_tests"] = stats.get("byte_cover_tests", 0) + 1
+    miss = sorted(set(range(256)) - set(data))
+    if miss:
+        viol.append({"what": "%s: byte values %s never occurred in %d random bytes" % (name, [hex(x) for x in miss[:6]], len(data))})
+
+
 def call_sequences():
     """the freshness workload: (name, thunk) whose outputs carry >= 128 bits of fill"""
     pan = "4000001234567899"
@@ -112,7 +143,8 @@ def call_sequences():
 for L in range(4, 13):
     cols = [[] for _ in range(14 - L)]
     outs = set()
-    for _ in range(N):
+    fills = []
+    for _ in range(max(N, 10200) if L == 11 else N):   # 3-digit fill: enough calls for the joint test over all 216 values
         pin = "".join(gen.choice("0123456789") for _ in range(L))
         pan = "".join(gen.choice("0123456789") for _ in range(gen.randrange(13, 20)))
         blk, drawn, same = monitored(pinblock.encode_pinblock_iso_3, pin, pan)
@@ -120,6 +152,7 @@ for L in range(4, 13):
         fill = nib[2 + L:]
         for i, x in enumerate(fill):
             cols[i].append(x)
+        fills.append(tuple(fill))
         # log2(6^(14-L)) bits of fill must have come from the OS generator
         need = math.ceil((14 - L) * math.log2(6) / 8)
         if drawn < need:
@@ -129,7 +162,12 @@ for L in range(4, 13):
         if nib[:2 + L] != [3, L] + [int(c) for c in pin]:
             viol.append({"what": "format 3: deterministic prefix wrong"})
     freq_check("format 3 fill (PIN length %d)" % L, cols, [10, 11, 12, 13, 14, 15])
-    stats["format3_L%d" % L] = N
+    # joint: whole fill when short enough, and every window of 2 and 3 adjacent fill digits
+    joint_cover_check("format 3 whole fill (PIN length %d)" % L, fills, [10, 11, 12, 13, 14, 15])
+    for w in (2, 3):
+        for i in range(0, 14 - L - w + 1):
+            joint_cover_check("format 3 fill digits %d..%d (PIN length %d)" % (i, i + w - 1, L), [f[i:i + w] for f in fills], [10, 11, 12, 13, 14, 15])
+    stats["format3_L%d" % L] = len(fills)
 # ---------------------------------------------------------------- format 4 field / block
 rows = []
 for _ in range(N):
@@ -143,6 +181,7 @@ for _ in range(N):
         viol.append({"what": "format 4 PIN field: deterministic half wrong"})
 bit_freq_check("format 4 PIN field tail", rows)
 byte_stat_check("format 4 PIN field tail", rows)
+byte_cover_check("format 4 PIN field tail", rows)
 stats["format4_field"] = N
 rows = []
 for _ in range(N // 2):
@@ -190,6 +229,7 @@ for v in "ABCD":
     for gk, rows in groups.items():
         bit_freq_check("TR-31 %s key padding %s" % (v, gk), rows)
         byte_stat_check("TR-31 %s key padding %s" % (v, gk), rows)
+        byte_cover_check("TR-31 %s key padding %s" % (v, gk), rows)
     stats["tr31_" + v] = N
 # ---------------------------------------------------------------- freshness of sequences
 for name, thunk in call_sequences():
